@@ -355,6 +355,20 @@ specified: a non-string value does not match, hence DOES count under `negate`. -
 def matchStringVal (m : Str → Str → Bool) (pattern : Str) (negate : Bool) (v : Val) : Bool :=
   (match v with | .str s => m pattern (SStr.toPlain s) | _ => false) != negate
 
+/-- "the value contains a wildcard character", read off the TEXT of a string value as it is written
+in the rule, without the parsed representation: an asterisk or question mark that is not escaped; a
+backslash escapes `*`, `?` and itself (Sigma specification, "Escaping") and is a plain character
+anywhere else.  `Props.C13.contains_wildcard_iff_unescaped` proves that `contains_wildcard` below
+(through `SStr.parse` / `containsSpecial`) answers exactly this. -/
+def unescapedWildcard : Str → Bool
+  | [] => false
+  | [c] => c == '*' || c == '?'
+  | c :: d :: r =>
+    if c == '\\' then
+      if d == '*' || d == '?' || d == '\\' then unescapedWildcard r else unescapedWildcard (d :: r)
+    else c == '*' || c == '?' || unescapedWildcard (d :: r)
+termination_by s => s.length
+
 def DetCond.eval (m : Str → Str → Bool) (w : World) (it : DetItem) : DetCond → Bool
   | .matchString all p neg => quantify all it.values (matchStringVal m p neg)
   | .matchValue all v => quantify all it.values (·.eqParam v)
